@@ -45,7 +45,7 @@ def run_job(job):
         home = runner.make_home(sc)
         root = os.path.join(w, "t")
         os.mkdir(root)
-        ordering.order_tree(rng, root, n_files=rng.randint(4, 22))
+        ordering.order_tree(rng, root, n_files=rng.randint(4, 22), extra=job.get("extra", 0))
         add_archives(rng, root)
 
         def run(q, trace=False):
@@ -99,7 +99,8 @@ def run_job(job):
             universe = collections.Counter(all_rows)
             ns = list(range(1, M + 3)) + [0, None]
             if M > 45:
-                ns = sorted(set(rng.sample(range(1, M + 3), 40) + [1, M - 1, M, M + 1, M + 2])) + [0, None]
+                ns = sorted(set(rng.sample(range(1, M + 3), 40) + [1, M - 1, M, M + 1, M + 2]
+                                + [x for x in (255, 256, 257, 1023, 1024, 1025) if x <= M])) + [0, None]
             all_ok = True
             for N in ns:
                 ltxt = "" if N is None else " limit %d" % N
@@ -159,6 +160,8 @@ def main(chk):
     quick = chk.tier == "quick"
     n = 128 if quick else 1200
     jobs = [{"id": "j%d" % i, "seed": job_seed(chk.seed, "C06", i), "queries": 4 if quick else 8} for i in range(n)]
+    for i in range(2 if quick else 12):
+        jobs.append({"id": "large%d" % i, "seed": job_seed(chk.seed, "C06", "L%d" % i), "queries": 2, "extra": 1500})
     chk.run_jobs(jobs, budget_s=300 if quick else 3000)
     return chk.finish(
         rule="for each generated (tree, query) pair - filtered or not, ordered or not (keys with many ties), 1-3 roots, bfs/dfs, with and "
